@@ -4,7 +4,7 @@ EventIdentity.tla (family `tamper`) <-> NewEventFromUntrustedJSON, Redacted(), J
 EventID(), VerifyJSON / VerifyEventSignatures.
 
 spec -> code: a really built and signed event of every shape and room version is tampered with on the wire by every
-enumerated subset T of {change / add a content key outside the keep-list, change a kept content key, add a top-level
+enumerated subset T of {change / add a content key outside the keep-list, change a kept content key, change content.third_party_invite.signed, add a top-level
 key, change origin, change depth, change unsigned, add age_ts, add outlier + destinations, set event_id} x hash mode
 {kept, garbage, re-hashed by the forger, removed}, parsed as untrusted JSON and compared with the specification.
 code -> spec: seeded random tamperings of random events, re-derived by EventIdentity_trace.tla."""
@@ -25,13 +25,17 @@ def run(ctx):
     ctx.exhaustive = True
     ctx.notes["rule"] = (
         "every behaviour of the tamper family of EventIdentity.tla: 16 room versions x 12 event shapes x optional "
-        "operation before (%s) x tamper sets of at most %d or at least all-but-one applicable elements out of 10 x 4 "
+        "operation before (%s) x tamper sets of at most %d or at least all-but-one applicable elements out of 11 x 4 "
         "hash modes; distinct = distinct (ID format, redaction algorithm, type, tamper set, hash mode, redacted, "
         "same-ID, valid signatures)" % (("none / second signature", 2) if ctx.tier == "quick"
                                          else ("none / second signature / SetUnsigned", 3)))
-    cfg = "EventIdentity_gen_tamper_%s.cfg" % ctx.tier
-    ctx.notes["constants"] = cfg
-    r = ctx.tlc("EventIdentity_gen", cfg, timeout=2400)
-    ctx.replay_and_compare("c04", r.records, pkg=PKG)
-    del r
+    fams = ["tamper"] if ctx.tier == "quick" else ["tamper", "tamperfull"]
+    ctx.notes["constants"] = ", ".join("EventIdentity_gen_%s_%s.cfg" % (f, ctx.tier) for f in fams)
+    if ctx.tier == "thorough":
+        ctx.notes["rule"] += ("; plus every subset (up to 2^11) of the applicable elements x hash modes for 6 shapes (message, empty "
+                              "content, member with restricted-join / third-party-invite content, create, power levels, redaction)")
+    for fam in fams:
+        r = ctx.tlc("EventIdentity_gen", "EventIdentity_gen_%s_%s.cfg" % (fam, ctx.tier), timeout=2400)
+        ctx.replay_and_compare("c04", r.records, pkg=PKG)
+        del r
     record_and_validate(ctx, "c04", 3000 if ctx.tier == "quick" else 60000, "C04")
